@@ -279,12 +279,21 @@ class CallStack(deque):
             if cells.is_cached:
                 graph.add_node(node)
 
+        moved = []
         while self.refstack:
             if self.refstack[-1][0] == self.counter:
                 _, ref = self.refstack.pop()
-                cells.model.refgraph.add_edge(ref, node)
+                if cells.is_cached:
+                    cells.model.refgraph.add_edge(ref, node)
+                elif self.counter:
+                    # An uncached cells holds no value to invalidate:
+                    # the reference becomes a precedent of its caller
+                    moved.append(ref)
             else:
                 break
+
+        for ref in reversed(moved):
+            self.refstack.append((self.counter - 1, ref))
 
         return node
 
